@@ -341,17 +341,36 @@ def r3(ctx):
                           "column %s passes %s to check_file_mode, expected (mode::%s, mode::%s)" % (col, fnrefs, meta_fn, mode_fn))
     # check_file_mode applies the u32 predicate to the archive mode and the Metadata predicate to the entry
     ch = ctx.anchor_hir("searcher::Searcher::check_file_mode")
-    params = [p.get("name") for p in ctx.prog.fn("searcher::Searcher::check_file_mode")["params"]]
+    import norm
+    cfm = ctx.prog.fn("searcher::Searcher::check_file_mode")
+    by_ty = list(zip(cfm["params"], norm.param_types(cfm.get("sig"))))
+    meta_p = [p_["id"] for p_, t_ in by_ty if "Fn(" in t_ and "Metadata" in t_]
+    bits_p = [p_["id"] for p_, t_ in by_ty if "Fn(" in t_ and "Metadata" not in t_ and "u32" in t_]
+    locs = Locals(ch)
     calls = {}
+
+    def provenance(e, depth=6):
+        """rendering of where a value comes from: single-assignment locals and payload binders (`if let Some(x) = e`) chased"""
+        out = []
+        while depth:
+            e = peel(locs.chase(e))
+            out.append(render(e))
+            if e["k"] == "Path" and e.get("rk") == "Local" and e["res"] in locs.payload_defs:
+                e = locs.payload_defs[e["res"]]
+                depth -= 1
+                continue
+            break
+        return " <- ".join(out)
     for x in walk_exprs(ch):
-        if x["k"] == "Call" and peel(x["f"])["k"] == "Path" and peel(x["f"]).get("rk") == "Local":
-            calls[peel(x["f"])["name"]] = render(x["args"][0])
-    ok = len(calls) == 2 and len(params) >= 5 and calls.get(params[2]) and calls.get(params[4]) and \
-        "attrs" in calls[params[2]] and "mode" in calls[params[4]]
+        if x["k"] == "Call" and peel(x["f"])["k"] == "Path" and peel(x["f"]).get("rk") == "Local" and x["args"]:
+            pid = peel(x["f"])["res"]
+            calls["metadata" if pid in meta_p else ("bits" if pid in bits_p else "?")] = provenance(x["args"][0])
+    ok = len(meta_p) == 1 and len(bits_p) == 1 and set(calls) == {"metadata", "bits"} and \
+        "file_metadata" in calls["metadata"] and ".mode" in calls["bits"] and "file_metadata" not in calls["bits"]
     ctx.obligation(bool(ok))
     if not ok:
         ctx.violation("accessor/check_file_mode", ctx.where("searcher::Searcher::check_file_mode"),
-                      "check_file_mode does not apply the Metadata predicate to the entry and the u32 predicate to the archive mode: %s" % calls)
+                      "check_file_mode does not apply the Metadata predicate to the entry's lstat record and the u32 predicate to the archive member's mode: %s" % calls)
     # user / group names
     if "User" in arms:
         for col, need in (("User", ["get_uid", "get_user_by_uid"]), ("Group", ["get_gid", "get_group_by_gid"])):
@@ -447,24 +466,63 @@ def r4(ctx):
             val = render(peel_result(x["r"]))
             if nm and ((nm.endswith("_set") and val != "false") or (not nm.endswith("_set") and not val.endswith("None"))):
                 ctx.violation("memo/clear-value/%s" % nm, ctx.where(CLEAR, x), "clear() sets %s to %s" % (nm, val))
-    # update_X memoises X: sets X_set and X, guarded by !X_set, from get_X / the matching reader
+    # update_X memoises X: evaluated (finite interpreter; the reader it calls is a stand-in) on three states of the memo:
+    # not yet filled and the reader succeeds / fails -> the flag is raised and the value stored is this entry's (never what
+    # was there before); already filled -> nothing is read again and the value stays
+    import interp
     n = 0
-    for name in ctx.prog.fns:
+    for name in sorted(ctx.prog.fns):
         if name.startswith(FMS + "::update_") and "::{" not in name:
             what = name.rsplit("update_", 1)[1]
             h = ctx.prog.hir(name)
-            assigned = [x["l"]["name"] for x in walk_exprs(h) if x["k"] == "Assign" and x["l"]["k"] == "Field"]
+            ps = ctx.prog.fns[name]["params"]
             n += 1
-            ok = sorted(assigned) == sorted([what, what + "_set"])
-            guard = any(x["k"] == "If" and render(peel(x["c"], methods=False)) == "!self.%s_set" % what for x in walk_exprs(h))
-            # the value is stored on every path that raises the flag (an unreadable entry must store its None, not keep a
-            # value of an earlier entry)
-            gl = {x["l"]["name"]: [guard_text(g) for g in (guards_of(h, x) or [])] for x in walk_exprs(h) if x["k"] == "Assign" and x["l"]["k"] == "Field"}
-            guard = guard and gl.get(what) == gl.get(what + "_set") == ["(!self.%s_set)" % what]
-            ctx.obligation(ok and guard)
-            if not (ok and guard):
+            problems = []
+            for state in ("empty/reader-ok", "empty/reader-fails", "filled"):
+                reads = []
+
+                def call(node, recv, args, it, env, state=state, reads=reads):
+                    callee = str(node.get("callee", ""))
+                    if callee in ctx.prog.fns and not callee.startswith(FMS):
+                        reads.append(callee)
+                        rty = str(node.get("ty", ""))
+                        if state == "empty/reader-fails":
+                            if rty.startswith("core::option::Option<"):
+                                return (interp.NONE,)
+                            if rty.startswith("core::result::Result<"):
+                                return (interp.V("Result::Err", [interp.Opaque("error")]),)
+                        if rty.startswith("core::option::Option<"):
+                            return (interp.some("FRESH"),)
+                        if rty.startswith("core::result::Result<"):
+                            return (interp.V("Result::Ok", ["FRESH"]),)
+                        return ("FRESH",)
+                    if isinstance(recv, interp.Opaque) and node.get("k") == "MCall":
+                        return (interp.Opaque("%s.%s()" % (recv.what, node.get("m"))),)      # entry.path() and the like
+                    return None
+                selfv = interp.LazySelf({what + "_set": state == "filled", what: "KEPT" if state == "filled" else "STALE"})
+                env = {p_["id"]: interp.Opaque(p_.get("name") or "?") for p_ in ps}
+                env[ps[0]["id"]] = selfv
+                try:
+                    interp.Interp(call=call, prog=ctx.prog, max_steps=5000).run(h, env)
+                except interp.Undecided as e:
+                    problems.append("cannot evaluate (%s): %s" % (state, e))
+                    break
+                if state == "filled":
+                    if selfv[what] != "KEPT" or reads or selfv[what + "_set"] is not True:
+                        problems.append("with the memo already filled it %s" % ("reads again (%s)" % reads if reads else "changes the stored value to %r" % (selfv[what],)))
+                else:
+                    if selfv[what + "_set"] is not True:
+                        problems.append("(%s) the flag %s_set is not raised" % (state, what))
+                    if "STALE" in repr(selfv[what]):
+                        problems.append("(%s) the flag is raised but `%s` keeps what was stored before (%r): an entry that cannot be read shows the previous entry's value" % (state, what, selfv[what]))
+                    if not reads:
+                        problems.append("(%s) nothing is read" % state)
+                    if state == "empty/reader-ok" and "FRESH" not in repr(selfv[what]):
+                        problems.append("(%s) the value read is not stored: `%s` = %r" % (state, what, selfv[what]))
+            ctx.obligation(not problems)
+            if problems:
                 ctx.violation("memo/update/%s" % what, ctx.where(name),
-                              "update_%s must fill `%s` once per entry (guard !%s_set, assign both); it assigns %s" % (what, what, what, assigned))
+                              "update_%s must fill `%s` once per entry with what its reader returns for this entry: %s" % (what, what, "; ".join(problems)))
     ctx.covered("update_* memo helpers", n, distinct_keys=["update:%d" % n])
 
 
